@@ -87,6 +87,8 @@ func parentDir(p string) string {
 }
 
 func init() {
+	// HTTP transport is outside every claim: an error reply is a no-op on the writer.
+	reg("net/http.Error", func(fr *frame, a []Value) Value { fr.in.note("stub: http.Error reply not rendered"); return nil })
 	reg("os.UserConfigDir", func(fr *frame, a []Value) Value { return Tuple{"/cfg", Iface{}} })
 	reg("os.TempDir", func(fr *frame, a []Value) Value { return "/tmp" })
 	reg("os.ReadFile", func(fr *frame, a []Value) Value {
